@@ -47,6 +47,10 @@ ENC = [
     (["-n", "4", "-w", "256", "-h", "256"], {"enc_mode": 8, "logical_processors": 6, "super_block_size": 128}),
     (["-n", "5", "-w", "200", "-h", "136", "--perturb", "9:300:80"], {"enc_mode": 8, "logical_processors": 3, "tile_columns": 1}),
 ]
+ENC += [
+    (["-n", "4", "-w", "192", "-h", "144"], {"enc_mode": 8, "logical_processors": 8}),            # segment rows do not divide SB rows
+    (["-n", "4", "-w", "256", "-h", "208", "--perturb", "31:300:50"], {"enc_mode": 8, "logical_processors": 16}),
+]
 ENC_THOROUGH = [
     (["-n", "6", "-w", "640", "-h", "384", "--perturb", "21:200:50"], {"enc_mode": 8, "logical_processors": 16}),
     (["-n", "4", "-w", "832", "-h", "128", "--perturb", "22:200:50"], {"enc_mode": 8, "logical_processors": 8}),
@@ -82,6 +86,33 @@ def trace_part(res):
                 os.unlink(r["out"] + ext)
     res.cov["grids_seen_in_real_encodes"] = ["W=%d H=%d segRows=%d segBands=%d (x%d)" % (k + (v,)) for k, v in sorted(grids.items())]
     return allrecs, index
+
+
+def replay_part(res):
+    """Direction A: the real enc_dec_segments_init / assign_enc_dec_segments driven over every small grid."""
+    exe = vlib.build_harness("seg_replay", ["seg_replay.c"])
+    runs = [(6, 6, 3, 0), (5, 5, 2, 1)] if res.tier == "quick" else [(8, 8, 3, 0), (8, 8, 1, 0), (7, 7, 4, 0), (6, 6, 2, 1), (6, 6, 3, 1), (9, 4, 3, 0), (3, 10, 3, 0)]
+    tdir = vlib.tmpdir()
+
+    def one(j):
+        i, (mw, mh, nw, cap) = j
+        trc = os.path.join(tdir, "segreplay_%d.trc" % i)
+        rc, out = vlib.sh([exe, trc, str(res.seed * 100 + i), str(mw), str(mh), str(nw), str(cap)], timeout=600)
+        return i, (mw, mh, nw, cap), rc, out, trc
+    for i, cfgx, rc, out, trc in common.parallel(one, list(enumerate(runs))):
+        desc = "seg_replay maxW=%d maxH=%d workers=%d capMode=%d" % cfgx
+        res.case("replay:" + desc)
+        if rc != 0:
+            res.violation("real segment scheduler did not finish the grid sweep (rc=%s): %s" % (rc, desc), out[-2000:])
+            continue
+        allrecs, index = [], []
+        for recs in common.seg_records(trc, completed=False):
+            a = recs[0]["a"]
+            index.append((len(allrecs) + 1, len(allrecs) + len(recs), "%s: grid W=%d H=%d reqSC=%d reqSR=%d maxRows=%d" % (desc, a[0], a[1], a[2], a[3], a[6])))
+            allrecs += recs
+        os.unlink(trc)
+        res.add("grids_replayed_into_real_code", len(index))
+        validate(res, allrecs, index, "replay%d" % i)
 
 
 def validate(res, recs, index, label):
@@ -148,6 +179,7 @@ def run(res):
     res.assumptions += ["exhaustive interleavings only for grids up to 5x5 superblocks and up to 3 workers; larger grids are covered by one-worker model runs and by real traces",
                         "the feedback task pool is assumed not to run dry (the real pool is sized by the encoder)"]
     model_part(res)
+    replay_part(res)
     recs, index = trace_part(res)
     ok = validate(res, recs, index, "encode")
     res.sample({"segment_trace_prefix": recs[:10]})
